@@ -25,20 +25,21 @@ type Param struct {
 }
 
 type Prog struct {
-	ID      string
-	Src     string // Go source: "package main\n..." containing func <Entry>
-	Entry   string
-	Params  []Param
-	Results []string
-	Mode    int                                           // goat side pipeline (0 public API)
-	Assume  func(ex *gosx.Exec, in map[string]*gosx.Term) // optional input assumptions (stated in evidence)
-	Family  string                                        // known-findings key prefix (class of program)
-	Tags    map[string]string
-	StrLen  map[string]int    // length of symbolic-content string parameters
-	Files   map[string]string // when set: the program is the package main in this tree (dir main/), loaded with Load
-	Shared  bool              // may share one reference package with other programs (only funcs with unique names)
-	Imports []string
-	ref     *ssa.Package
+	ID       string
+	Src      string // Go source: "package main\n..." containing func <Entry>
+	Entry    string
+	Params   []Param
+	Results  []string
+	Mode     int                                           // goat side pipeline (0 public API)
+	Assume   func(ex *gosx.Exec, in map[string]*gosx.Term) // optional input assumptions (stated in evidence)
+	Family   string                                        // known-findings key prefix (class of program)
+	Tags     map[string]string
+	StrLen   map[string]int    // length of symbolic-content string parameters
+	Files    map[string]string // when set: the program is the package main in this tree (dir main/), loaded with Load
+	RefFiles map[string]string // Go-reference rendering of Files when it differs (e.g. an imported package flattened into main)
+	Shared   bool              // may share one reference package with other programs (only funcs with unique names)
+	Imports  []string
+	ref      *ssa.Package
 
 	replayTimeout int // seconds for the native goat run of a replay (0: default)
 }
@@ -94,7 +95,7 @@ func (c *Ctx) loadRefs(progs []*Prog) (kept []*Prog, rejected int) {
 		pd := filepath.Join(dir, fmt.Sprintf("b%dp%d", batch, i))
 		os.MkdirAll(pd, 0o755)
 		if p.Files != nil {
-			for name, content := range p.Files {
+			for name, content := range p.refFiles() {
 				if strings.HasPrefix(name, "main/") {
 					os.WriteFile(filepath.Join(pd, strings.ReplaceAll(strings.TrimPrefix(name, "main/"), "/", "_")), []byte(content), 0o644)
 				}
@@ -540,7 +541,7 @@ func (c *Ctx) runEquiv(progs []*Prog, solver string, agg *Agg, st *eqStats) {
 			return
 		}
 		c.AddViolation(Violation{Key: f.f.ID, What: fmt.Sprintf("%s; program %q inputs %s: goat=%v go=%v", f.f.Msg, oneLine(f.p.Src), modelString(f.f.Model), detail["goat"], detail["go"]),
-			Replay: map[string]interface{}{"kind": "prog", "src": f.p.Src, "entry": f.p.Entry, "params": f.p.Params, "results": f.p.Results, "model": f.f.Model, "mode": f.p.Mode, "strlen": f.p.StrLen, "files": f.p.Files, "assertion": f.f.ID}})
+			Replay: map[string]interface{}{"kind": "prog", "src": f.p.Src, "entry": f.p.Entry, "params": f.p.Params, "results": f.p.Results, "model": f.f.Model, "mode": f.p.Mode, "strlen": f.p.StrLen, "files": f.p.Files, "reffiles": f.p.RefFiles, "assertion": f.f.ID}})
 	})
 }
 
@@ -642,6 +643,13 @@ func (c *Ctx) replayProg(p *Prog, m gosx.Model) (bool, map[string]interface{}) {
 	return goat != gout, detail
 }
 
+func (p *Prog) refFiles() map[string]string {
+	if p.RefFiles != nil {
+		return p.RefFiles
+	}
+	return p.Files
+}
+
 func (p *Prog) nativeTimeout() int {
 	if p.replayTimeout > 0 {
 		return p.replayTimeout
@@ -724,7 +732,7 @@ func (c *Ctx) runGo386(p *Prog, lits []string) (string, error) {
 		return "", fmt.Errorf("program defines main")
 	}
 	if p.Files != nil {
-		for name, content := range p.Files {
+		for name, content := range p.refFiles() {
 			if strings.HasPrefix(name, "main/") {
 				os.WriteFile(filepath.Join(dir, strings.ReplaceAll(strings.TrimPrefix(name, "main/"), "/", "_")), []byte(content), 0o644)
 			}
